@@ -77,6 +77,9 @@ class Atomizer:
     def inline(self, e):
         subst = self.subst
         rename = self.rename
+        pre = getattr(self, "pre", None)
+        if pre is not None:
+            e = pre(e)
 
         class Tr(ast.NodeTransformer):
             def visit_Name(self, n):
